@@ -308,6 +308,15 @@ fn pair_compare(obs: &mut Obs, key: &str, l: Side, r: Side, map: &[usize], f_eta
         obs.discard(format!("non-finite A_res on one side (cross-association solver not converged):{:?}", l.spec.family));
         return None;
     }
+    {
+        // a contribution whose derivative overflows (exp(eps_AB/T) at the cold end of the domain)
+        // makes the cancellation-safe scale non-finite although the total is finite: nothing to compare
+        let finite = |p: &Props| [p.a, p.p, p.s, p.dpdv, p.dpdt].iter().all(|q| q.1.is_finite());
+        if !finite(&lp) || !finite(&rp) {
+            obs.discard(format!("non-finite scale (a contribution overflows):{:?}", l.spec.family));
+            return None;
+        }
+    }
     let (tol, extra, floor) = pair_tol(l.spec, &lp, f_eta);
     // only findings listed as open may mask: a fixed entry suppresses nothing
     let mut sigs = signatures(l.spec, r.spec);
